@@ -309,6 +309,7 @@ func runC06(c *Ctx) {
 	// session writer wraps the connection directly (no buffering layer, nothing else owns the sink)
 	defer c.writeThrough("C06.R4")
 	defer c.errorCodeReturnsWriteErrors("C06.R2")
+	defer c.include("C06.S3", "C05", []string{"C05.R2"}, "Execute is answered by DataRows and one CommandComplete: the result writer handed to the statement function can emit nothing else (an EmptyQueryResponse from Complete / Empty, say)", 8)
 	defer c.include("C06.S2", "C02", []string{"C02.R4"}, "a reply is delivered when its message ends, without waiting for further input: End writes the whole frame to the connection on every successful path", 6)
 	R.Exhaustive = true
 
